@@ -373,7 +373,8 @@ type MsgDesc struct {
 	HSMS      bool // use NewHSMSDataMessage
 }
 
-var msgNames = []string{"", "AreYouThere", "OnLineData", "ERN", "名前", "a.b", "x/y", "[x]", "Wafer#1", "né", "S", "H->", "\xff\xfe", "<", "."}
+var msgNames = []string{"", "AreYouThere", "OnLineData", "ERN", "名前", "a.b", "x/y", "[x]", "Wafer#1", "né", "S", "H->", "\xff\xfe", "<", ".",
+	"Are\x00You", "esc\x1bname", "del\x7f", "c1\u009f", "\x01", "zw\u200bsp", "bom\ufeff"}
 
 func genMsgDesc(r *rand.Rand, item *Node, pbad float64) *MsgDesc {
 	m := &MsgDesc{Item: item}
